@@ -189,10 +189,15 @@ def runHist {α : Type} (desc : FieldDesc) (F : FOps α) (uSpec bSpec : String) 
       fld := fun i => if i == 0 then F else more.getD (i - 1) F,
       uring := fun i => if i == 1 then { uBase with modulus := um } else if i == 3 then { uBase with modulus := um2 } else uBase,
       bring := fun i => if i == 1 then { bBase with ideal := bi } else bBase }
+    -- `escr@f` (harness: call Elements(), then scribble over everything returned) is a pure accessor: no state
+    -- change, the reply is the number of elements.  It is interpreted here, not by the proved `step`.
+    let stepD := fun (st : St α) (line : String) =>
+      if line.startsWith "escr@" then (st, "ok " ++ toString (env.fld (atIdx line)).card)
+      else step env desc st (parseOp line)
     let (_, outs) := ops.foldl (fun (st, outs) line =>
-      let (st', r) := step env desc st (parseOp line)
+      let (st', r) := stepD st line
       (st', outs ++ [if snap then r ++ " ## " ++ snapshot env st' else r])) (({} : St α), [])
-    let final := ops.foldl (fun st line => (step env desc st (parseOp line)).1) ({} : St α)
+    let final := ops.foldl (fun st line => (stepD st line).1) ({} : St α)
     " | ".intercalate outs ++ (if snap then "" else " ## " ++ snapshot env final)
   | _, _, _ => "fuel-exhausted (ring specification: ideal computation gave up or malformed generators)"
 
